@@ -19,6 +19,8 @@ pub mod c15;
 pub mod c16;
 pub mod c17;
 pub mod c18;
+pub mod c19;
+pub mod c20;
 
 pub fn lookup(id: &str) -> Option<(&'static str, fn(&mut Ctx))> {
     Some(match id {
@@ -40,6 +42,8 @@ pub fn lookup(id: &str) -> Option<(&'static str, fn(&mut Ctx))> {
         "C16" => ("C16", c16::run as fn(&mut Ctx)),
         "C17" => ("C17", c17::run as fn(&mut Ctx)),
         "C18" => ("C18", c18::run as fn(&mut Ctx)),
+        "C19" => ("C19", c19::run as fn(&mut Ctx)),
+        "C20" => ("C20", c20::run as fn(&mut Ctx)),
         _ => return None,
     })
 }
